@@ -138,6 +138,13 @@ impl FoldFSM {
 
     pub(crate) fn meet_fold_end(self, data_keeper: &mut DataKeeper) {
         // TODO: check for prev and current lore emptiness
+        #[cfg(feature = "verif_probes")]
+        if !self.prev_fold.lore.is_empty() || !self.current_fold.lore.is_empty() {
+            air_log_targets::probe::hit(
+                "fold_end_leftover_lore",
+                format!("prev={} current={}", self.prev_fold.lore.len(), self.current_fold.lore.len()),
+            );
+        }
         let fold_result = FoldResult { lore: self.result_lore };
         let state = ExecutedState::Fold(fold_result);
         self.state_inserter.insert(data_keeper, state);
